@@ -3,6 +3,7 @@
 -/
 import Driver.Text
 import Ezpz.Model.Cli
+import Ezpz.Model.CliMain
 namespace Ezpz.Driver
 open Ezpz Ezpz.Text Ezpz.Cli
 
@@ -54,6 +55,24 @@ def runCli (ts : Toks) : String :=
           let us ← (kinds u).mapM (·.toNat?)
           pure (.solved (kinds w) us (← nv.toNat?) (← ne.toNat?) (← it.toNat?) (← pr.toNat?) l)
         | _ => none
+      -- the stages of `Cli.classify` (CliMain.lean) recomputed by the model from the text alone
+      -- must agree with what the real library reported: parse / build status and the sizes
+      let stage : String :=
+        match parseProblem text with
+        | none => "parse"
+        | some p =>
+          match toConstraintSystem p with
+          | .error _ => "build"
+          | .ok cs => s!"built {Cli.numVars cs} {Cli.numEqs cs} {cs.constraints.length}"
+      let reported : String :=
+        match rest with
+        | ["read"] => stage
+        | ["parse"] => "parse"
+        | ["build"] => "build"
+        | ["serr", nv, ne, "W", _] => s!"built {nv} {ne} {nc}"
+        | "ok" :: nv :: ne :: _ => s!"built {nv} {ne} {nc}"
+        | _ => "?"
+      if stage != reported then s!"STAGE-MISMATCH model={stage} library={reported}" else
       match run? with
       | none => "bad-op"
       | some r =>
